@@ -6,6 +6,7 @@ import (
 	"bytes"
 	"encoding/json"
 	"fmt"
+	"io"
 	"math"
 	"sort"
 	"strings"
@@ -17,6 +18,7 @@ import (
 	"seehuhn.de/go/postscript/type1"
 
 	"verif/harness/ev"
+	"verif/harness/iofault"
 	"verif/harness/known"
 	"verif/harness/t1gen"
 	"verif/harness/t1ref"
@@ -35,6 +37,30 @@ var formNames = []string{"PFA", "PFB", "binary", "noeexec", "WritePDF"}
 type c08case struct {
 	Font *type1.Font `json:"font"`
 	Form int         `json:"form"`
+	// Prior: before the write that is examined, the same font is written in
+	// form Prior.Form to a destination that fails at byte Prior.AtByte (what a
+	// failed write leaves behind must not show in later output)
+	Prior *priorFail `json:"prior,omitempty"`
+}
+
+type priorFail struct {
+	Form   int `json:"form"`
+	AtByte int `json:"at_byte"`
+}
+
+func writeTo(f *type1.Font, form int, w io.Writer) error {
+	switch form {
+	case formPFA:
+		return f.Write(w, &type1.WriterOptions{Format: type1.FormatPFA})
+	case formPFB:
+		return f.Write(w, &type1.WriterOptions{Format: type1.FormatPFB})
+	case formBinary:
+		return f.Write(w, &type1.WriterOptions{Format: type1.FormatBinary})
+	case formPlain:
+		return f.Write(w, &type1.WriterOptions{Format: type1.FormatNoEExec})
+	}
+	_, _, err := f.WritePDF(w)
+	return err
 }
 
 func write(f *type1.Font, form int) (data []byte, l1, l2 int, err error) {
@@ -110,6 +136,9 @@ func f64s(v []funit.Int16) []float64 {
 
 func check(c *c08case) string {
 	f := c.Font
+	if c.Prior != nil {
+		writeTo(f, c.Prior.Form, &iofault.FailWriter{AtCall: -1, AtByte: c.Prior.AtByte})
+	}
 	data, l1, l2, err := write(f, c.Form)
 	if err != nil {
 		return fmt.Sprintf("%s: write fails: %v", formNames[c.Form], err)
@@ -348,7 +377,7 @@ func probe(rec *ev.Rec, id string, mutate func(f *type1.Font)) bool {
 func TestP1Decode(t *testing.T) {
 	rec := ev.New("C08", "decode")
 	defer rec.Finish(t)
-	rec.Rule("fonts from the C09 generator (writable domain, incl. glyph names that shadow PostScript operators - the structural decoder does not execute names) x {PFA, PFB, binary, no-eexec, WritePDF}. Oracle: t1ref.Parse (own PFB framing check, hex de-armouring, eexec/charstring ciphers, tokeniser, charstring interpreter) must accept the bytes and yield the font's glyph set, outlines (exact when all coordinates of a glyph are integers, else 1/214), rounded widths, stems, per-code encoding, FontInfo/Private/FontMatrix values and creation date; conformance: container framing, binary cipher start rule, four lead bytes, endchar, 512 zeros + cleartomark, WritePDF lengths. Non-trivial: >= 2 glyphs and (curve or fractional coordinate or escaped string byte); distinct by font content and form.")
+	rec.Rule("fonts from the C09 generator (writable domain, incl. glyph names that shadow PostScript operators - the structural decoder does not execute names) x {PFA, PFB, binary, no-eexec, WritePDF}; for a third of the fonts every examined write is preceded by a write of the same font (drawn form) to a destination that fails at a drawn byte offset. Oracle: t1ref.Parse (own PFB framing check, hex de-armouring, eexec/charstring ciphers, tokeniser, charstring interpreter) must accept the bytes and yield the font's glyph set, outlines (exact when all coordinates of a glyph are integers, else 1/214), rounded widths, stems, per-code encoding, FontInfo/Private/FontMatrix values and creation date; conformance: container framing, binary cipher start rule, four lead bytes, endchar, 512 zeros + cleartomark, WritePDF lengths. Non-trivial: >= 2 glyphs and (curve or fractional coordinate or escaped string byte); distinct by font content and form.")
 	var opts t1gen.FontOpts
 	opts.NoNewlineVersion = probe(rec, "C09-version-newline", func(f *type1.Font) { f.FontInfo.Version = "1.0\n(" })
 	opts.NoStdEncHoles = probe(rec, "C09-stdenc-holes", func(f *type1.Font) {
@@ -357,7 +386,9 @@ func TestP1Decode(t *testing.T) {
 		f.Glyphs["B"] = f.Glyphs[".notdef"]
 		f.Encoding[66] = ".notdef"
 	})
-	opts.NoOddZones = probe(rec, "C09-zone-offset", func(f *type1.Font) { f.CreationDate = t1gen.ParseDate("2020-02-03 04:05:06 +0000 UTC").In(t1gen.FixedZone(5*3600 + 45*60)) })
+	opts.NoOddZones = probe(rec, "C09-zone-offset", func(f *type1.Font) {
+		f.CreationDate = t1gen.ParseDate("2020-02-03 04:05:06 +0000 UTC").In(t1gen.FixedZone(5*3600 + 45*60))
+	})
 	ev.SetupRapid(12000, 400000)
 	rapid.Check(t, func(t *rapid.T) {
 		f, feat := t1gen.GenFont(t, opts)
@@ -370,8 +401,19 @@ func TestP1Decode(t *testing.T) {
 			raw, _ := json.Marshal(f)
 			key = string(raw)
 		}
+		var prior *priorFail
+		if rapid.IntRange(0, 2).Draw(t, "priorfail") == 0 {
+			// a failed write first: the destination fails at a drawn byte of
+			// the output
+			pf := rapid.IntRange(0, len(formNames)-1).Draw(t, "priorform")
+			var cw iofault.CountWriter
+			if writeTo(f, pf, &cw) == nil && cw.Bytes > 0 {
+				prior = &priorFail{Form: pf, AtByte: rapid.IntRange(0, cw.Bytes-1).Draw(t, "priorbyte")}
+				rec.Class("after-failed-write")
+			}
+		}
 		for form := range formNames {
-			c := &c08case{Font: f, Form: form}
+			c := &c08case{Font: f, Form: form, Prior: prior}
 			rec.Eval(1)
 			rec.Class("form:" + formNames[form])
 			if nt {
